@@ -8,6 +8,7 @@ Require Import Sedpack.Model.Base Sedpack.Generated.GenIter Sedpack.Model.Iter S
 Require Import Sedpack.Model.PipeBase Sedpack.Generated.GenPipeline Sedpack.Proofs.PipelineProofs.
 Require Import Sedpack.Generated.GenLazyPool Sedpack.Model.LazyPool Sedpack.Proofs.LazyPoolInv Sedpack.Proofs.LazyPoolResult.
 From Coq Require Import Permutation.
+Require Sedpack.Model.Meta Sedpack.Proofs.IterateProofs.
 
 (** Shuffle buffer (paths and examples): for every buffer size >= 1, every sequence of random
     indices and every final shuffle, a full pass ends and yields a permutation of its input. *)
@@ -81,6 +82,17 @@ Theorem c02_as_numpy_iterator_async_exactly_once :
   Permutation (ana path ex read process pickA permA pickB shuffle T hp paths) (spec path ex read process hp paths).
 Proof. exact ana_exactly_once. Qed.
 Print Assumptions c02_as_numpy_iterator_async_exactly_once.
+
+(** The depth-first shard list over nested shard lists, for whole histories of the session model of C04 (fillers into any
+    directory, multi-writer calls, the recursive merge): after every history that completes, unshuffled iteration of a split — the
+    depth-first shard list, each shard's stored examples — is a permutation of the contents of ALL shard files stored below that
+    split: every stored shard exactly once, nothing else. *)
+Theorem c02_iteration_yields_exactly_what_is_stored :
+  forall eps : nat, 1 <= eps -> forall (h : list Meta.session) (fs : Meta.fsT) (info : Meta.dinfo), Meta.run_history eps h = Meta.Ok (fs, info) ->
+  forall (s : nat) (li : Meta.list_info), Meta.dget info s = Some li ->
+  Permutation (Meta.iterate fs info s) (flat_map (fun e => fst (snd e)) (filter (IterateProofs.under s) (Meta.shards fs))).
+Proof. exact IterateProofs.history_iterate_is_stored. Qed.
+Print Assumptions c02_iteration_yields_exactly_what_is_stored.
 
 (** Non-vacuity with the concrete generator of the code (r*1664525+1013904223 mod 2^32). *)
 Theorem c02_nonvacuous :
